@@ -13,7 +13,7 @@ from runner import Check
 
 
 def pflood_models(ck, invariant_note):
-    ck.model("PFlood-2x3-queen", "MCPFlood.tla", "MCPFlood_quick.cfg", note=invariant_note)
+    ck.model("PFlood-2x3-queen", "MCPFlood.tla", "MCPFlood_quick.cfg", note=invariant_note, required_actions=("Pop", "Finish"))
     ck.model("PFlood-profile5", "MCPFlood.tla", "MCPFlood_p5.cfg", note=invariant_note)
     if ck.tier == "thorough":
         ck.model("PFlood-3x3-queen", "MCPFlood.tla", "MCPFlood_q33.cfg", note=invariant_note, timeout=3000)
@@ -23,7 +23,8 @@ def pflood_models(ck, invariant_note):
 def basin_models(ck, note):
     """L2 spanning-tree resolver (routing, lowest passes, Kruskal with any tie order, orientation,
     basic / carve re-routing, tilting) on every field over 3 levels, all choices the code leaves open."""
-    ck.model("BasinGraph-profile6-carve", "MCBasinGraph.tla", "MCBasinGraph_p6_carve.cfg", note=note, timeout=3000)
+    ck.model("BasinGraph-profile6-carve", "MCBasinGraph.tla", "MCBasinGraph_p6_carve.cfg", note=note, timeout=3000,
+             required_actions=("Route", "Connect", "Passes", "Kruskal", "Orient", "Reroute", "Tilt"))
     ck.model("BasinGraph-2x3-rook-basic", "MCBasinGraph.tla", "MCBasinGraph_rook23_basic.cfg", note=note, timeout=3000)
     if ck.tier == "thorough":
         ck.model("BasinGraph-profile6-basic", "MCBasinGraph.tla", "MCBasinGraph_p6_basic.cfg", note=note, timeout=3000)
@@ -144,7 +145,8 @@ def plan_C11(ck):
     q = ck.tier == "quick"
     blocks_replay(ck)
     note = "every interleaving of caller and workers at the granularity of the atomic accesses: ExactlyOnce, NoDataRace (release/acquire happens-before ghosts), MutexOK, Termination under weak fairness"
-    ck.model("ThreadPool-A-2workers", "MCThreadPool.tla", "MCThreadPool_A.cfg", note=note)
+    ck.model("ThreadPool-A-2workers", "MCThreadPool.tla", "MCThreadPool_A.cfg", note=note,
+             required_actions=("R1lock", "R1", "T0sSpawn", "T2Store", "WlLoad", "P3", "B2", "S2Join", "Z1", "L2", "L3", "K0", "K2", "K3", "K5"))
     ck.model("ThreadPool-C-idempotent-calls", "MCThreadPool.tla", "MCThreadPool_C.cfg", note=note)
     ck.model("ThreadPool-E-destroy-unused", "MCThreadPool.tla", "MCThreadPool_E.cfg", note=note)
     ck.model("ThreadPool-A-relaxed-orders", "MCThreadPool.tla", "MCThreadPool_A_relaxed.cfg", expect="violation",
@@ -152,6 +154,8 @@ def plan_C11(ck):
     ck.model("ThreadPool-A-unlocked-notify", "MCThreadPool.tla", "MCThreadPool_A_unlocked.cfg", expect="violation",
              note="negative control: notify_all without the mutex loses a wake-up (Termination violated)")
     if not q:
+        ck.model("ThreadPool-A-spurious-wakeups", "MCThreadPool.tla", "MCThreadPool_A_spurious.cfg", expect="violation",
+                 note="documented limit, outside the property's assumptions: if cv.wait may return spuriously the pause handshake can hang (no predicate loop around the wait)")
         ck.model("ThreadPool-B-3workers-resizes", "MCThreadPool.tla", "MCThreadPool_B.cfg", note=note, timeout=3000)
         ck.model("ThreadPool-D-initial-size-10", "MCThreadPool.tla", "MCThreadPool_D.cfg", note=note, timeout=3000)
         ck.model("ThreadPool-F-4workers", "MCThreadPool.tla", "MCThreadPool_F.cfg", note=note, timeout=6000, xmx="24g")
@@ -173,7 +177,8 @@ TSAN_FLOW_BUILD = dict(sources=["main.cpp", "pool_driver.cpp", "stubs.cpp", "stu
 def plan_C10(ck):
     q = ck.tier == "quick"
     note = "block dispatch of the parallel router (fill/read/write of the neighbour scratch per node) and level loop of apply_kernel_par, every interleaving: result = sequential result, kernel exactly once per node after all its receivers, termination"
-    ck.model("ParDispatch-2workers-6nodes", "MCParDispatch.tla", "MCParDispatch_ok2.cfg", note=note, workers=8)
+    ck.model("ParDispatch-2workers-6nodes", "MCParDispatch.tla", "MCParDispatch_ok2.cfg", note=note, workers=8,
+             required_actions=("Fill", "Read", "Write", "RouteDone", "Kernel", "NextLevel", "KernelDone"))
     ck.model("ParDispatch-3workers-7nodes-minlevel", "MCParDispatch.tla", "MCParDispatch_ok3.cfg", note=note, workers=8)
     ck.model("ParDispatch-shared-scratch", "MCParDispatch.tla", "MCParDispatch_shared.cfg", expect="violation", workers=8,
              note="negative control: one scratch cell shared by the workers (cache-less grid defect) gives wrong receivers in some interleaving")
